@@ -55,7 +55,7 @@ impl Prop for C18 {
         (graph_strategy(&SINGLE_KINDS, 1, 14, me, &[0, 1, 2, 3], 5), proptest::collection::vec(any::<u8>(), 3), any::<bool>()).prop_map(|(g, tols, weighted)| EigCase { g, tols, weighted }).boxed()
     }
     fn random_cases(&self, tier: Tier) -> u32 {
-        tier.pick(8_000, 200_000)
+        tier.pick(30_000, 400_000)
     }
     fn check(&self, case: &EigCase) -> Outcome {
         let mut out = Outcome::new();
